@@ -59,6 +59,8 @@ func genC12(rng *rand.Rand, tier string) *core.Plan {
 	p.Cfg["fx"] = rng.Intn(2) // histograms; rate, arithmetic, quantile, functions on last / first fields
 	p.Cfg["bigbatch"] = rng.Intn(2) // batches of up to 48 rows
 	p.Cfg["nodes"] = rng.Intn(2) // the shards also live on 2..k storage nodes with metadata (ids) of their own
+	p.Cfg["realmgr"] = rng.Intn(2)    // responses are received by lindb's own task manager on a real worker pool
+	p.Cfg["mgrworkers"] = rng.Intn(3) // 1-3 workers
 	return p
 }
 
